@@ -9,7 +9,7 @@ use temporal_rs::options::{Disambiguation, DisplayCalendar, DisplayOffset, Displ
 use temporal_rs::tzdb::FsTzdbProvider;
 use temporal_rs::{Calendar, Duration, Instant, PlainDateTime, TimeZone, ZonedDateTime};
 
-pub const ACTIONS: [&str; 12] = [
+pub const ACTIONS: [&str; 13] = [
     "ok: New_York getter",
     "ok: London add",
     "ok: Tokyo Instant::to_ixdtf_string",
@@ -22,6 +22,7 @@ pub const ACTIONS: [&str; 12] = [
     "PANIC while holding the provider lock (spawned thread, joined)",
     "ok: London getter from a spawned thread",
     "PANIC while holding the provider lock while another thread is blocked on it (the waiter's call is judged)",
+    "a zone named in another letter case (america/new_york getter): the answer must not depend on what is cached",
 ];
 
 fn zdt(ns: i128, zone: &str) -> ZonedDateTime {
@@ -112,6 +113,10 @@ fn act(a: usize, shared: bool) -> String {
                 format!("{:?}", zdt(t, "Europe/London").day_with_provider(&p).map_err(|e| (e.kind(), e.message().to_string())))
             }
         }
+        12 => {
+            let z = |_: ()| ZonedDateTime::try_new(t, Calendar::default(), TimeZone::IanaIdentifier("america/new_york".into())).unwrap();
+            pick!(z(()).hour(), z(()).hour_with_provider(&p))
+        }
         _ => unreachable!(),
     }
 }
@@ -184,7 +189,7 @@ impl Space for Histories {
             out.lockstep("call returns what it returns alone", &Ok(s["want"].as_str().unwrap_or("").to_string()), &Oc::Ok(s["got"].as_str().unwrap_or("").to_string()), |a, b| a == b && same, || attrs(k));
             state.0 |= h[k] == 8 || h[k] == 9 || h[k] == 11;
             state.1.push(h[k]);
-            out.state(&(state.0, { let mut z: Vec<usize> = state.1.iter().filter(|a| **a < 5 || **a >= 10).map(|a| [0, 1, 2, 0, 3, 9, 9, 9, 9, 9, 1, 1][*a]).collect(); z.sort(); z.dedup(); z }));
+            out.state(&(state.0, { let mut z: Vec<usize> = state.1.iter().filter(|a| **a < 5 || **a >= 10).map(|a| [0, 1, 2, 0, 3, 9, 9, 9, 9, 9, 1, 1, 9][*a]).collect(); z.sort(); z.dedup(); z }));
         }
         if out.want_sample() && has_fault && h.len() >= 2 && h[0] == 8 {
             out.sample(json!({"history": h.iter().map(|a| ACTIONS[*a]).collect::<Vec<_>>()}));
@@ -239,7 +244,7 @@ pub fn run(env: &Env) -> i32 {
     let mut rep = Report::new(
         env,
         "model_checking",
-        "schedules: every interleaving of the real convenience wrappers at their synchronisation points under loom (2-4 threads, 1-3 calls each, zones forced to collide and to differ, an erroring call), up to the stated preemption bounds; histories: every sequence of 12 actions (ok calls on 4 zones from the main or a spawned thread, 3 erroring calls, a panic while holding the provider lock from the main or a spawned thread, and such a panic while another thread is parked on the lock) up to depth 3 (quick) / 4 (thorough), each in its own process; non-trivial = histories containing a failing or panicking call",
+        "schedules: every interleaving of the real convenience wrappers at their synchronisation points under loom (2-4 threads, 1-3 calls each, zones forced to collide and to differ, an erroring call), up to the stated preemption bounds; histories: every sequence of 13 actions (ok calls on 4 zones from the main or a spawned thread, a zone named in another letter case, 3 erroring calls, a panic while holding the provider lock from the main or a spawned thread, and such a panic while another thread is parked on the lock) up to depth 3 (quick) / 4 (thorough), each in its own process; non-trivial = histories containing a failing or panicking call",
     );
     rep.assumptions.push("loom explores sequentially consistent interleavings at loom synchronisation points; the wrappers use one mutex and a lazily initialised static, nothing weaker. The sequential reference is the core method with a fresh FsTzdbProvider".into());
     let loom_json = std::env::var("TMC_LOOM_JSON").ok().and_then(|p| std::fs::read_to_string(p).ok()).and_then(|t| serde_json::from_str::<Value>(&t).ok());
